@@ -18,11 +18,22 @@ Ltac zb :=
   end.
 
 (* ---- vm_get_slice_range with a single index (RANGE_DEREF, SLICE_DEREF) -------------------- *)
+Lemma guard_nonneg c d : 0 <= c -> 0 <= d -> (c <? 0) || (d <? 0) = false.
+Proof.
+  intros Hc Hd. destruct (Z.ltb_spec c 0); [lia|]. destruct (Z.ltb_spec d 0); [lia|]. reflexivity.
+Qed.
+
+Lemma guard_neg c d : c < 0 \/ d < 0 -> (c <? 0) || (d <? 0) = true.
+Proof.
+  intros H. destruct (Z.ltb_spec c 0); [reflexivity|]. destruct (Z.ltb_spec d 0); [reflexivity|]. lia.
+Qed.
+
 Lemma gsr_index_in : forall a b i,
   is_s32 a -> is_s32 b -> 0 <= i < range_len a b ->
   get_slice_range a b i i = (range_nth a b i, range_nth a b i, false).
 Proof.
   intros a b i Ha Hb Hi. unfold get_slice_range, range_nth, range_len in *.
+  rewrite guard_nonneg by lia.
   rewrite (Z.ltb_irrefl i).
   destruct (Z.ltb_spec a b).
   - rewrite s32_small by (unfold is_s32 in *; lia).
@@ -36,16 +47,17 @@ Lemma gsr_index_out : forall a b i,
   snd (get_slice_range a b i i) = true.
 Proof.
   intros a b i Ha Hb Hi H1 H2. unfold get_slice_range, range_len in *.
+  rewrite guard_nonneg by lia.
   rewrite (Z.ltb_irrefl i).
   destruct (Z.ltb_spec a b); cbn [snd]; rewrite s32_small by assumption; apply Z.ltb_lt; lia.
 Qed.
 
 (* ---- [a..b][c..d] ---------------------------------------------------------------------------- *)
 Theorem slice_range_denotes : forall a b c d rf rt oob,
-  is_s32 a -> is_s32 b -> 0 <= c -> 0 <= d -> compose_ok a c d ->
+  is_s32 a -> is_s32 b -> (0 <= c -> 0 <= d -> compose_ok a c d) ->
   get_slice_range a b c d = (rf, rt, oob) ->
-  (* refused exactly when an inner bound is not an index of [a..b] *)
-  (oob = false <-> c < range_len a b /\ d < range_len a b) /\
+  (* refused exactly when an inner bound is not an index of [a..b] (negative or too large) *)
+  (oob = false <-> 0 <= c < range_len a b /\ 0 <= d < range_len a b) /\
   (* otherwise the result denotes, position by position, [a..b][ [c..d][k] ] *)
   (oob = false ->
      range_len rf rt = range_len c d /\
@@ -54,8 +66,13 @@ Theorem slice_range_denotes : forall a b c d rf rt oob,
        0 <= range_nth c d k < range_len a b /\
        range_lo a b <= range_nth rf rt k <= range_hi a b).
 Proof.
-  intros a b c d rf rt oob Ha Hb Hc Hd [H1 [H2 [H3 H4]]] E.
+  intros a b c d rf rt oob Ha Hb Hcomp E.
   unfold get_slice_range in E.
+  destruct (Z_lt_le_dec c 0) as [Hc|Hc]; [|destruct (Z_lt_le_dec d 0) as [Hd|Hd]].
+  1,2: rewrite guard_neg in E by lia; inversion E; subst;
+       (split; [split; [discriminate | lia] | discriminate]).
+  rewrite guard_nonneg in E by assumption.
+  destruct (Hcomp Hc Hd) as [H1 [H2 [H3 H4]]].
   destruct (Z.ltb_spec a b); destruct (Z.ltb_spec c d);
     rewrite !s32_small in E by assumption; inversion E; subst; clear E;
     unfold range_len, range_nth, range_lo, range_hi.
@@ -66,19 +83,10 @@ Proof.
     | intros Hoob; apply Z.ltb_ge in Hoob; split; [lia|]; intros k Hk; zb; lia ].
 Qed.
 
-(* negative inner bounds are not refused: [2..5][-1..2] = [1..4] selects position 1, which is
-   not a position of [2..5] *)
-Theorem slice_range_negative_inner_refuted :
-  exists a b c d rf rt,
-    is_s32 a /\ is_s32 b /\ compose_ok a c d /\
-    get_slice_range a b c d = (rf, rt, false) /\
-    ~ (range_lo a b <= range_nth rf rt 0 <= range_hi a b).
-Proof.
-  exists 2, 5, (-1), 2, 1, 4.
-  unfold is_s32, compose_ok, is_s32, two31.
-  repeat split; try lia; try (vm_compute; congruence).
-  vm_compute. intros [H1 H2]. apply H1. reflexivity.
-Qed.
+(* negative inner bounds are refused before anything is computed (fix bf51841) *)
+Lemma slice_range_negative_inner : forall a b c d, c < 0 \/ d < 0 ->
+  get_slice_range a b c d = (0, 0, true).
+Proof. intros a b c d H. unfold get_slice_range. now rewrite guard_neg. Qed.
 
 (* an index far beyond the end of a range near INT_MAX wraps and is accepted *)
 Theorem slice_range_overflow_refuted :
@@ -110,14 +118,15 @@ Proof.
       all: destruct idx; cbn in *; tauto.
     + intros H. exfalso. apply H. exact I.
   - inversion Hs as [|? ? [Ha Hb] Hs']; subst. cbn [fst snd] in *.
-    cbn [inner_ok] in Hok. destruct Hok as [Hc [Hd [Hcomp Hok']]].
+    cbn [inner_ok] in Hok. destruct Hok as [Hcomp Hok'].
     cbn in Hlen. assert (Hlen' : length t1 = length t2) by lia.
     specialize (IH t2 Hs' Hlen' Hok'). destruct IH as [IH1 IH2].
     cbn [compose_ranges].
     destruct (get_slice_range a b c d) as [[rf rt] oob] eqn:E.
-    destruct (slice_range_denotes a b c d rf rt oob Ha Hb Hc Hd Hcomp E) as [D1 D2].
+    destruct (slice_range_denotes a b c d rf rt oob Ha Hb Hcomp E) as [D1 D2].
     assert (Hrs : is_s32 rf /\ is_s32 rt).
     { unfold get_slice_range in E.
+      destruct ((c <? 0) || (d <? 0)); [inversion E; unfold is_s32, two31; lia|].
       destruct (a <? b); destruct (c <? d); inversion E; split; apply s32_range. }
     split.
     + intros [W1 [W2 W3]].
@@ -132,7 +141,7 @@ Proof.
       cbn [idx_in_ranges ranges_nth]. rewrite Dl.
       split; [tauto|]. split; [tauto|]. rewrite Dn1, Q3. reflexivity.
     + intros Hnot. destruct oob; [reflexivity|].
-      assert (Hw : c < range_len a b /\ d < range_len a b) by (apply D1; reflexivity).
+      assert (Hw : 0 <= c < range_len a b /\ 0 <= d < range_len a b) by (apply D1; reflexivity).
       rewrite IH2; [reflexivity|]. intros W. apply Hnot. cbn. tauto.
 Qed.
 
@@ -384,7 +393,8 @@ Proof.
     assert (Hdec : inner_within r1 r2 \/ ~ inner_within r1 r2).
     { clear. revert r2. induction r1 as [|[a b] t1 IH]; destruct r2 as [|[c d] t2]; cbn; try tauto.
       destruct (IH t2); destruct (Z_lt_le_dec c (range_len a b)); destruct (Z_lt_le_dec d (range_len a b));
-        try tauto; right; intros [? [? ?]]; try lia; tauto. }
+        destruct (Z_lt_le_dec c 0); destruct (Z_lt_le_dec d 0);
+        try (left; repeat split; (lia || assumption)); right; intros [? [? ?]]; try lia; tauto. }
     destruct Hdec as [|Hn]; [assumption|]. specialize (C2 Hn). congruence. }
   destruct (C1 Hw) as [r [Hr1 [Hr2 [Hr3 Hr4]]]]. rewrite Hr1 in Hss. inversion Hss; subst s2.
   destruct (Hr4 idx Hin) as [Q1 [Q2 Q3]].
